@@ -433,6 +433,40 @@ class IntroVisitor(ast.NodeVisitor):
             for a in arg_nodes
             if any(isinstance(x, ast.Call) for x in ast.walk(a))
         ]
+        # A function handed over as an argument (dds.keep(p, apply, h, 3)) is also something the call depends on:
+        # it is followed by name before the call. (Not the function that dds.keep itself keeps.)
+        kept_callee: Optional[ast.AST] = None
+        try:
+            z_ = ObjectRetrieval.retrieve_object(
+                LocalDepPath(PurePosixPath("/".join(_function_name(node.func)))),
+                self._start_mod,
+                self._gctx,
+            )
+            if (
+                isinstance(z_, AuthorizedObject)
+                and z_.resolved_path == CanonicalPathUtils.from_list(["dds", "keep"])
+                and len(node.args) >= 2
+            ):
+                kept_callee = node.args[1]
+        except DDSException:
+            pass
+        for a in arg_nodes:
+            v = a.value if isinstance(a, ast.keyword) else a
+            if a is kept_callee or any(a is e for e in early_args):
+                continue
+            names_function = (
+                isinstance(v, ast.Name)
+                and isinstance(self._start_mod.__dict__.get(v.id), FunctionType)
+                and LocalVar(v.id) not in self._function_var_names
+            ) or (
+                isinstance(v, ast.Attribute)
+                and function_given_through_module(
+                    v, self._start_mod, self._function_var_names
+                )
+                is not None
+            )
+            if names_function:
+                early_args.append(a)
         for a in early_args:
             self.visit(a)
         # This is a bit brute-force (not working for multi-line function calls)
